@@ -837,3 +837,6 @@ def shrink(line):
 
 def exhaustive(tier):
     return tier == "thorough"   # all length-3 histories over the 27-operation aliasing alphabet, both policies
+
+
+KNOWN_MUST_MATCH_MODEL = True   # inside a known finding's region the observation must still equal the model's (which reproduces the listed defect); see lib/vf/run.py
